@@ -55,6 +55,22 @@ def nfds():
     return len(os.listdir("/proc/self/fd"))
 
 
+def start_or_inconclusive(obs):
+    """obs.start(); if the machine is out of inotify instances (other checks running beside this one) the case cannot be
+    judged: a start() that failed has dropped the emitter it could not start, the model would no longer match."""
+    import errno
+
+    try:
+        obs.start()
+    except OSError as e:
+        if e.errno == errno.EMFILE and "inotify" in str(e):
+            try:
+                obs.stop()
+            finally:
+                raise runner.Inconclusive("the per-user limit of inotify instances is exhausted by other processes") from None
+        raise
+
+
 def run_cycles(steps):
     from watchdog.events import FileSystemEventHandler
     from watchdog.observers.inotify import InotifyObserver
@@ -135,7 +151,7 @@ def run_cycles(steps):
                 # observer's to release at its next stop()
                 if all(t != "InotifyObserver" for t in lib_threads()):
                     try:
-                        fsops.with_instances(obs.start)
+                        start_or_inconclusive(obs)
                         ever_started = True
                         end = time.monotonic() + 5
                         while time.monotonic() < end and obs.is_alive():
@@ -155,7 +171,7 @@ def run_cycles(steps):
             elif k == "start":
                 if not running and all(t != "InotifyObserver" for t in lib_threads()):
                     try:
-                        fsops.with_instances(obs.start)
+                        start_or_inconclusive(obs)
                         running = True
                         ever_started = True
                         for w in watches.values():
